@@ -13,7 +13,6 @@ namespace ProbLogProofs.GroundFOSem
 open ProbLogModel ProbLogModel.Formula ProbLogModel.GroundFO ProbLogProofs.GroundSem
 open ProbLogModel.Sem (getB wfm)
 
-def inR (nc : Nat) (a : List Const) : Bool := a.all (fun x => decide (x < nc))
 
 theorem mem_tuples (nc : Nat) : ∀ (n : Nat) (θ : List Const), θ ∈ tuples nc n ↔ θ.length = n ∧ inR nc θ = true
   | 0, θ => by
